@@ -11,7 +11,7 @@ NAME_FORMS = ['bold', 'faint', 'italic', 'red', 'blue', 'bg_red', 'bg_blue', 'un
               'no_bold_faint', 'fg_default', 'no_underline', 'ul_red', 'dul_blue', 'orange', 'bg_purple',
               'BOLD', 'Fg Red', 'bg-blue', 'alt_font_1', 'default_font', 'overlined', 'no_overlined',
               'slow_blink', 'rapid_blink', 'crossed_out', 'framed', 'encircled', 'hide', 'swap_bg_fg']
-INT_FORMS = [1, 2, 3, 4, 21, 22, 24, 31, 34, 39, 41, 44, 49, 53, 55, 10, 11, 90, 107]
+INT_FORMS = [1, 2, 3, 4, 21, 22, 24, 31, 34, 39, 41, 44, 49, 53, 55, 10, 11, 90, 107, 0, 0, 20, 23]      # 0: the reset code, falsy as a Python value
 STR_CODE_FORMS = ['1;31', '31;1', '38;5;214', '38;2;1;2;3', '48;5;21', '4;58;5;9', '1', '22', '0;1', ';', ';;', 'bold;', ';31', '1;;4', '73;italic', '38;7;red']
 FN_FORMS = ['rgb(1,2,3)', 'bg_rgb(0x10, 0x20, 0x30)', 'ul_rgb(0xFF00FF)', 'dul_color256(7)', 'fg_colour256(0x10)',
             'rgb([300,2,3])', 'color256(255)']
